@@ -5,6 +5,7 @@
 (* on the simulated wire, callbacks), plus history variables kept here.         *)
 EXTENDS Naturals, Integers, Sequences, FiniteSets, TLC, Json
 CONSTANTS D, F, H,     \* disconnected / failed timeouts, transaction lifetime of the run (ms)
+          DD, DC,      \* per agent: disconnected timeout in effect / disconnected part of the initial checking deadline (lite defaults differ)
           TraceFile, NatMap, Reach, LocA, LocB, Lite, CheckPrio, MaxReq,
           Check        \* names of the predicates this run judges
 Tr == ndJsonDeserialize(TraceFile)
@@ -242,34 +243,34 @@ C06_SupersessionPreserves ==
      /\ ~\E r \in Rng(cur[ev.ag].remotes) : r.addr = ev.c.addr /\ r.typ = "prflx"
 \* ---------------------------------------------------------------- C04
 SelRemote(o, a) == PairOf(o, a, o[a].sel).r
-StateFor(c, silence) ==
-  LET total == IF F = 0 THEN 0 ELSE F + D  disc == D # 0 /\ silence > D  fail == total # 0 /\ silence > total
+StateFor(a, c, silence) ==
+  LET total == IF F = 0 THEN 0 ELSE F + DD[a]  disc == DD[a] # 0 /\ silence > DD[a]  fail == total # 0 /\ silence > total
   IN IF fail THEN (IF disc /\ c \notin {"Disconnected", "Failed"} THEN "Disconnected" ELSE "Failed")
      ELSE IF disc THEN "Disconnected" ELSE "Connected"
 C04_TimingRule ==
   (ev.ev = "Tick" /\ pre[ev.ag].sel # 0 /\ pre[ev.ag].conn # "Failed") =>
-     cur[ev.ag].conn = StateFor(pre[ev.ag].conn, cur.now - pre[ev.ag].rx[SelRemote(pre, ev.ag)])
+     cur[ev.ag].conn = StateFor(ev.ag, pre[ev.ag].conn, cur.now - pre[ev.ag].rx[SelRemote(pre, ev.ag)])
 \* an agent that never selects a pair fails once the initial checking deadline (D + F, F # 0) has passed,
 \* and not before it has passed
 C04_CheckingDeadline ==
   (ev.ev = "Tick" /\ pre[ev.ag].conn = "Checking" /\ pre[ev.ag].sel = 0 /\ chk[ev.ag] >= 0) =>
      LET a == ev.ag IN
-     /\ (F # 0 /\ cur.now - chk[a] > D + F) => cur[a].conn = "Failed"
-     /\ (F = 0 \/ cur.now - chk[a] <= D + F) => cur[a].conn # "Failed"
-Legal(x, y) == \/ <<x, y>> \in {<<"New", "Checking">>, <<"Checking", "Connected">>, <<"Checking", "Failed">>,
+     /\ (F # 0 /\ cur.now - chk[a] > DC[a] + F) => cur[a].conn = "Failed"
+     /\ (F = 0 \/ cur.now - chk[a] <= DC[a] + F) => cur[a].conn # "Failed"
+Legal(a, x, y) == \/ <<x, y>> \in {<<"New", "Checking">>, <<"Checking", "Connected">>, <<"Checking", "Failed">>,
                                 <<"Connected", "Disconnected">>, <<"Disconnected", "Connected">>, <<"Disconnected", "Failed">>}
-               \/ (<<x, y>> = <<"Connected", "Failed">> /\ D = 0)
+               \/ (<<x, y>> = <<"Connected", "Failed">> /\ DD[a] = 0)
                \/ y = "Closed"
 \* F-C04 (known finding): a Failed agent that was given candidates again still processes inbound checks
 \* and reports Connected when a nomination completes
 KnownFC04(a) == <<pre[a].conn, cur[a].conn>> = <<"Failed", "Connected">> /\ ev.ev = "Deliver"
 C04_LifecycleStrict ==
   \A a \in Agents : cur[a].conn # pre[a].conn =>
-     \/ Legal(pre[a].conn, cur[a].conn)
+     \/ Legal(a, pre[a].conn, cur[a].conn)
      \/ (cur[a].conn = "Checking" /\ pre[a].conn \in {"Connected", "Disconnected", "Failed"} /\ ev.ev = "Restart" /\ ev.ag = a)
      \/ ev.ev = "Reset"
 C04_Lifecycle == \A a \in Agents : (cur[a].conn # pre[a].conn /\ ~KnownFC04(a)) =>
-     \/ Legal(pre[a].conn, cur[a].conn)
+     \/ Legal(a, pre[a].conn, cur[a].conn)
      \/ (cur[a].conn = "Checking" /\ pre[a].conn \in {"Connected", "Disconnected", "Failed"} /\ ev.ev = "Restart" /\ ev.ag = a)
      \/ ev.ev = "Reset"
 C04_FC04Seen == \A a \in Agents : ~KnownFC04(a)   \* used with -continue to list the occurrences of the known finding
